@@ -137,7 +137,15 @@ fn expected_without_line_end_normalization(d: &ADoc) -> Result<Vec<(String, Stri
 }
 
 fn compare(d: &ADoc, label: &str, feat: &str, sink: &mut Sink) {
-    let text = render_canonical(d);
+    compare_text(d, render_canonical(d), label, feat, sink);
+    // the same document with every character reference (also those inside entity literals) in hexadecimal
+    let hex = crate::model::adoc::render_hex_refs(d);
+    if hex != render_canonical(d) {
+        compare_text(d, hex, label, &format!("{}+hex-references", feat), sink);
+    }
+}
+
+fn compare_text(d: &ADoc, text: String, label: &str, feat: &str, sink: &mut Sink) {
     sink.count("transitions", 1);
     let want = match expected(d) {
         Ok(w) => w,
